@@ -71,6 +71,18 @@ def sstr(*parts) -> Any:
     return SStr(tuple(flat))
 
 
+@dataclass(frozen=True)
+class SPos:
+    """A character position inside a symbolic string: len(head) + delta, where head is a prefix of s."""
+
+    s: Any  # SStr
+    head: Any  # str | SStr: the part of s before the position (delta == 0)
+    delta: int = 0
+
+    def __repr__(self) -> str:
+        return f"pos(len({self.head!r}){self.delta:+d} in {self.s!r})"
+
+
 def is_strlike(v: Any) -> bool:
     return isinstance(v, (str, SStr))
 
